@@ -36,6 +36,8 @@ func scenarios(tier string) []sched.Scenario {
 		{Name: "leader-crash-restart", Fault: "leader-crash-restart", Clients: 2, PerCli: 1, SyncData: true},
 		{Name: "follower-crash-restart", Fault: "follower-crash-restart", Clients: 2, PerCli: 1, SyncData: true},
 		{Name: "spurious-failover", Fault: "spurious-failover", Clients: 2, PerCli: 1, SyncData: true},
+		// the node swapped in is empty: it is restored from a snapshot of the leader and replays the rest
+		{Name: "swap", Fault: "swap", Clients: 2, PerCli: 1, SyncData: true},
 	}
 	dev := 1
 	if tier == "thorough" {
